@@ -486,6 +486,140 @@ theorem validSpan_subgraph (g : G) (root : Nat) (res : List (Nat × Nat))
   rw [← hn]
   exact this
 
+/-! ### `validMinSpan`: the listed tree is a breadth-first tree -/
+
+/-- walks of a given length -/
+inductive Walk (g : G) (a : Nat) : Nat → Nat → Prop
+  | refl : Walk g a 0 a
+  | step {k b c : Nat} : Walk g a k b → g.hasEdge b c = true → Walk g a (k + 1) c
+
+theorem Walk.reach {g : G} {k a b : Nat} (h : Walk g a k b) : Reach g a b := by
+  induction h with
+  | refl => exact Reach.refl _
+  | step _ he ih => exact Reach.step ih he
+
+theorem Reach.walk {g : G} {a b : Nat} (h : Reach g a b) : ∃ k, Walk g a k b := by
+  induction h with
+  | refl => exact ⟨0, Walk.refl⟩
+  | step _ he ih => obtain ⟨k, hk⟩ := ih; exact ⟨k + 1, Walk.step hk he⟩
+
+theorem lookup_append_of_mem (d x : List (Nat × Nat)) (q : Nat) (h : q ∈ d.map (·.1)) :
+    lookup (d ++ x) q = lookup d q := by
+  unfold lookup
+  rw [List.find?_append]
+  cases hf : d.find? (fun p => p.1 == q) with
+  | some p => simp
+  | none =>
+    rw [List.find?_eq_none] at hf
+    obtain ⟨p, hp, hpq⟩ := List.mem_map.1 h
+    exact absurd (by simpa using hpq) (hf p hp)
+
+theorem lookup_append_of_not_mem (d : List (Nat × Nat)) (q v : Nat) (h : q ∉ d.map (·.1)) :
+    lookup (d ++ [(q, v)]) q = v := by
+  unfold lookup
+  rw [List.find?_append]
+  have hf : d.find? (fun p => p.1 == q) = none := by
+    rw [List.find?_eq_none]
+    intro p hp hpq
+    exact h (List.mem_map.2 ⟨p, hp, by simpa using hpq⟩)
+  rw [hf]
+  simp
+
+/-- the fold of `spanDepths` from an arbitrary table -/
+def depthsFrom (d : List (Nat × Nat)) (res : List (Nat × Nat)) : List (Nat × Nat) :=
+  res.foldl (fun d pc => d ++ [(pc.2, lookup d pc.1 + 1)]) d
+
+theorem spanDepths_eq (root : Nat) (res : List (Nat × Nat)) :
+    spanDepths root res = depthsFrom [(root, 0)] res := rfl
+
+theorem depthsFrom_cons (d : List (Nat × Nat)) (a : Nat × Nat) (rest : List (Nat × Nat)) :
+    depthsFrom d (a :: rest) = depthsFrom (d ++ [(a.2, lookup d a.1 + 1)]) rest := rfl
+
+/-- entries present at the start keep their depth -/
+theorem lookup_depthsFrom_of_mem (res : List (Nat × Nat)) : ∀ (d : List (Nat × Nat)) (q : Nat),
+    q ∈ d.map (·.1) → lookup (depthsFrom d res) q = lookup d q := by
+  induction res with
+  | nil => intro d q _; rfl
+  | cons a rest ih =>
+    intro d q hq
+    rw [depthsFrom_cons, ih _ q (by simp [List.map_append]; exact Or.inl (by simpa using hq)),
+      lookup_append_of_mem d _ q hq]
+
+/-- every vertex met is joined to the root by a walk of `t` whose length is its table depth,
+for any graph `t` containing the listed pairs -/
+theorem spanOK_walk (g t : G) (root : Nat) (res : List (Nat × Nat)) :
+    ∀ (seen : List Nat) (d : List (Nat × Nat)), SpanOK g seen res → seen = d.map (·.1) →
+    (∀ pc ∈ res, t.hasEdge pc.1 pc.2 = true) →
+    (∀ v ∈ seen, Walk t root (lookup d v) v) →
+    ∀ v ∈ seen ++ res.map (·.2), Walk t root (lookup (depthsFrom d res) v) v := by
+  induction res with
+  | nil => intro seen d _ _ _ h v hv; exact h v (by simpa using hv)
+  | cons a rest ih =>
+    intro seen d hok hsd hedge hseen v hv
+    rw [depthsFrom_cons]
+    refine ih (seen ++ [a.2]) (d ++ [(a.2, lookup d a.1 + 1)]) hok.2 (by simp [hsd])
+      (fun pc hpc => hedge pc (by simp [hpc])) ?_ v (by simpa [List.append_assoc] using hv)
+    intro w hw
+    rw [List.mem_append] at hw
+    rcases hw with hw | hw
+    · rw [lookup_append_of_mem d _ w (hsd ▸ hw)]
+      exact hseen w hw
+    · simp only [List.mem_cons, List.not_mem_nil, or_false] at hw
+      subst hw
+      rw [lookup_append_of_not_mem d _ _ (hsd ▸ hok.1.2.2.1)]
+      exact Walk.step (hseen _ hok.1.2.1) (hedge a (by simp))
+
+/-- meaning of the checker `validMinSpan` (with `dep v` the depth of `v` in the depth table) -/
+theorem validMinSpan_iff (g : G) (root : Nat) (res : List (Nat × Nat)) :
+    validMinSpan g root res = true ↔
+      validSpan g root res = true ∧
+      ∀ e ∈ g.edges, lookup (spanDepths root res) e.1 ≤ lookup (spanDepths root res) e.2 + 1 ∧
+                     lookup (spanDepths root res) e.2 ≤ lookup (spanDepths root res) e.1 + 1 := by
+  unfold validMinSpan
+  rw [Bool.and_eq_true, List.all_eq_true]
+  simp only [Bool.and_eq_true, decide_eq_true_eq]
+
+/-- an accepted listing is a breadth-first tree: for every vertex `v` the table depth
+`dep v` is the length of a walk from the root inside the listed tree (which is a subgraph of
+`g`, so also a walk of `g`), and no walk of `g` from the root to `v` is shorter.  Hence
+tree distance = graph distance = `dep v`. -/
+theorem validMinSpan_dist (g : G) (root : Nat) (res : List (Nat × Nat))
+    (h : validMinSpan g root res = true) (v : Nat) (hv : v < g.n) :
+    Walk ⟨g.n, res.map norm⟩ root (lookup (spanDepths root res) v) v ∧
+    Walk g root (lookup (spanDepths root res) v) v ∧
+    ∀ k, Walk g root k v → lookup (spanDepths root res) v ≤ k := by
+  rw [validMinSpan_iff] at h
+  obtain ⟨hvs, hdep⟩ := h
+  have hvs' := hvs
+  rw [validSpan_eq, Bool.and_eq_true, Bool.and_eq_true, sFold_iff, beq_iff_eq,
+    decide_eq_true_eq] at hvs'
+  obtain ⟨⟨hlen, hroot⟩, _, hok⟩ := hvs'
+  obtain ⟨hnd, hlt⟩ := spanOK_nodup g res [root] hok (by simp) (by simpa using hroot)
+  have hfull : v ∈ [root] ++ res.map (·.2) := nodup_lt_full hnd hlt (by simp; omega) v hv
+  have hbase : ∀ (t : G), ∀ w ∈ [root], Walk t root (lookup [(root, 0)] w) w := by
+    intro t w hw
+    simp only [List.mem_cons, List.not_mem_nil, or_false] at hw
+    subst hw
+    have : lookup [(w, 0)] w = 0 := by simp [lookup]
+    rw [this]
+    exact Walk.refl
+  have hlow : ∀ k w, Walk g root k w → lookup (spanDepths root res) w ≤ k := by
+    intro k w hk
+    induction hk with
+    | refl =>
+      rw [spanDepths_eq, lookup_depthsFrom_of_mem res _ _ (by simp)]
+      simp [lookup]
+    | @step k b c _ he ih =>
+      rw [G.hasEdge_iff] at he
+      have hd := hdep _ he
+      unfold norm at hd
+      split at hd <;> simp only at hd <;> omega
+  refine ⟨?_, ?_, fun k => hlow k v⟩
+  · exact spanOK_walk g (treeOf g res) root res [root] [(root, 0)] hok rfl
+      (fun pc hpc => treeOf_hasEdge_of_mem g res hpc) (hbase _) v hfull
+  · exact spanOK_walk g g root res [root] [(root, 0)] hok rfl
+      (spanOK_edges g res _ hok) (hbase _) v hfull
+
 /-! ### non-vacuity -/
 section examples
 
@@ -533,6 +667,13 @@ example : validSpan p4 4 [(1, 0), (1, 2), (2, 3)] = false := by decide
 example : validSpan ⟨3, [(0, 1)]⟩ 0 [(0, 1)] = false := by decide
 -- one vertex: the empty list
 example : validSpan ⟨1, []⟩ 0 [] = true := by decide
+
+-- the real result for the chorded 4-cycle, root 1, is a breadth-first tree …
+example : validMinSpan c4 1 [(1, 2), (1, 0), (0, 3)] = true := by decide
+-- … whereas this spanning tree (accepted by `validSpan`) reaches 0 through 2: depth 2 instead of 1
+example : validSpan c4 1 [(1, 2), (2, 0), (0, 3)] = true ∧
+    validMinSpan c4 1 [(1, 2), (2, 0), (0, 3)] = false := by decide
+example : spanDepths 1 [(1, 2), (1, 0), (0, 3)] = [(1, 0), (2, 1), (0, 1), (3, 2)] := by decide
 
 end examples
 
